@@ -167,6 +167,12 @@ func facetGenOK(args []string) error {
 	for _, s := range srcs {
 		results = append(results, runGoag(*work, s.g))
 	}
+	for i := range results {
+		// api-handler=false without components and without client writes no file at all
+		if gos, _ := filepath.Glob(filepath.Join(results[i].Dir, "*.go")); results[i].Outcome == "ok" && len(gos) == 0 {
+			results[i].Outcome = "ok-nothing-written"
+		}
+	}
 	if _, err := buildBatch(*work, results); err != nil {
 		return err
 	}
